@@ -35,7 +35,8 @@ def class_kit(cls):
         return m.Diagram, m.Swap, lambda i: m.Dim(primes[i])
     if cls == "circuit":
         from discopy.quantum import circuit as m
-        return m.Circuit, m.Swap, lambda i: (m.bit, m.qubit, m.qubit, m.bit)[i % 4]
+        wires = (m.bit, m.qubit, m.qubit, m.bit, m.Ty(m.Digit(3)), m.Ty(m.Qudit(3)), m.qubit, m.Ty(m.Digit(3)))
+        return m.Circuit, m.Swap, lambda i: wires[i % 8]
     if cls == "zx":
         from discopy.quantum import zx as m
         from discopy.rigid import PRO
